@@ -406,6 +406,15 @@ def main(argv):
     except Infra as e:
         print("INFRASTRUCTURE FAILURE (no verdict) property=%s: %s" % (pid, e), file=sys.stderr)
         rc = 2
+        # what the replays already observed on the real code stands: a later stage that cannot run (a vacuity guard, a
+        # negative control that the broken tree makes pointless) does not take a violation back
+        try:
+            if any(not m.get("beyond") for m in ctx.violations):
+                ctx.cov.setdefault("stages", []).append({"stage": "aborted", "reason": str(e)[:300]})
+                if ctx.finish() == 1:
+                    rc = 1
+        except Exception:  # noqa: BLE001
+            pass
     except subprocess.TimeoutExpired as e:
         print("INFRASTRUCTURE FAILURE (timeout, no verdict) property=%s: %s" % (pid, e), file=sys.stderr)
         rc = 2
